@@ -332,7 +332,10 @@ pub fn run(r: &mut Runner) {
             }
         }
         // strings fed to the parsers behind duration() / timestamp() / int() / double()
-        for s in ["", "0", "-0", "1h", "-1h", "9223372036854775807ns", "-9223372036854775808ns", "9223372036854775808ns", "99999999999999999999h", "1e400s", ".s", "1.s", "nan", "inf", "1µs", "0001-01-01T00:00:00Z", "9999-12-31T23:59:59.999999999+23:59", "+262142-12-31T23:59:59Z", "2016-12-31T23:59:60Z", "1e400", "0x10", " 1"] {
+        let long1 = format!("1.{}s", "3".repeat(45));
+        let long2 = format!("0.{}1s", "0".repeat(140));
+        let long3 = "9".repeat(50);
+        for s in [long1.as_str(), long2.as_str(), long3.as_str(), "", "0", "-0", "1h", "-1h", "9223372036854775807ns", "-9223372036854775808ns", "9223372036854775808ns", "99999999999999999999h", "1e400s", ".s", "1.s", "nan", "inf", "1µs", "0001-01-01T00:00:00Z", "9999-12-31T23:59:59.999999999+23:59", "+262142-12-31T23:59:59Z", "2016-12-31T23:59:60Z", "1e400", "0x10", " 1"] {
             for f in ["duration", "timestamp", "int", "uint", "double", "string", "bytes"] {
                 cases.push(Builtin { func: f.to_string(), recv: V::s(s), arg: None, style: 1 });
             }
